@@ -258,7 +258,9 @@ def check_conformity(repo: Repo, rep: Report, tier="quick"):
             findings[(c, key)] = dict(message=msg, witness=wit, line=line, count=0)
         findings[(c, key)]["count"] += 1
 
-    def run(shape, seed, part, start, delta, path_type, rename=False, alphas=alphas):
+    ot_first_id_zero = OrderType([["t"], ["0"]], [1], 16)        # t + 1 == 0: the first snapshot id is the literal 0
+
+    def run(shape, seed, part, start, delta, path_type, rename=False, alphas=alphas, ot=ot):
         vals = PARTITIONS[part]
         names = {"x": "x", "y": "y", "z": "z"} if not rename else {"x": "y", "y": "z", "z": "x"}
         sent = {v: SentinelV("label:" + names[v]) for v in set(vals)}
@@ -351,6 +353,35 @@ def check_conformity(repo: Repo, rep: Report, tier="quick"):
                         sc2 = _scores(val2) if r2 is None else "raised"
                         if sc2 != sc:
                             add(construct, "label-renaming", "renaming the label values changes the result from %s to %s" % (sc, sc2), wit)
+    # the same windows with the first snapshot id being the literal 0 (an instant handed on where a number is expected, or tested
+    # for truth, shows only there): uniform labels, every score 1 / 0 as above
+    n_zero = 0
+    shape = CONF_SHAPE
+    keys = sorted({shape.key(*e) for e in shape.edges}, key=str)
+    for seed in list(_seeds(shape, None))[:: (5 if tier == "quick" else 1)]:
+        pres = ", ".join("%s-%s@t%+d" % (k[0], k[1], o) for k in keys for o in IDS if seed[("present", k, repr(T(o)))]) or "nothing"
+        for (start, delta) in ((1, 1), (1, 3)):
+            window = [o for o in IDS if start <= o <= start + delta]
+            if not any(seed[("present", k, repr(T(o)))] for k in keys for o in window):
+                continue
+            wit = "%s | present: %s | start=t%+d = 0, delta=%d, uniform labels" % (shape.name, pres, start, delta)
+            n_zero += 1
+            w, val, r = run(shape, seed, "uniform", start, delta, "shortest", ot=ot_first_id_zero)
+            if r is not None:
+                add(construct, "raises:%s" % r.exc, "delta_conformity raises %s (%s)" % (r.exc, r.detail), wit, getattr(r.node, "lineno", 0))
+                continue
+            sc = _scores(val)
+            if sc is None or sc == "bad":
+                add(construct, "skeleton:first-id-zero", "delta_conformity returns %s for a window that starts at the snapshot id 0 and holds "
+                    "interactions" % (to_py(val),), wit)
+                continue
+            for a, d in sc.items():
+                for n, s_ in d.get("label", {}).items():
+                    reaches = any(seed[("present", k, repr(T(o)))] for k in keys if n in k for o in window)
+                    if abs(s_ - (1.0 if reaches else 0.0)) > 1e-9:
+                        add(construct, "uniform-labels:first-id-zero", "all nodes share one label and the window starts at the snapshot id 0: %s %s "
+                            "another node but its score for alpha=%s is %r" % (n, "reaches" if reaches else "reaches no", a, s_), wit)
+    stats["runs"] += n_zero
     # damping factors that share their '%.2f' key (and a plain duplicate): still one entry per key, scores in range
     n_dup = 0
     for dup in ([1.0, 1.001], [2.5, 2.5]):
